@@ -28,6 +28,7 @@ pub fn run_property(ctx: &Ctx) -> Option<Report> {
             r.assume("a set to the same value with a different status (plain vs TTL) may or may not notify; re-delivery of identical entries after a reset may or may not notify");
             listen::run(ctx, &mut r);
             listen::run_drop_race(ctx, &mut r);
+            listen::run_slow_drop(ctx, &mut r);
             r
         }
         "C17" => {
@@ -129,6 +130,8 @@ pub fn run_property(ctx: &Ctx) -> Option<Report> {
             r.assume("tolerance: evaluations within T*1e-9 + 1 us after the deadline are not asserted (f64 arithmetic)");
             r.assume("liveness evidence rule used: live implies two strictly increasing heartbeat observations at most max_interval apart, the later one after the last evaluation that classified the member dead");
             fd::run_c10(ctx, &mut r);
+            // server level: the gossip round ends with an evaluation whatever its sends did
+            srv::run_targets(ctx, &mut r);
             r
         }
         "C11" => {
@@ -153,6 +156,8 @@ pub fn run_property(ctx: &Ctx) -> Option<Report> {
             );
             r.assume("id universe of 48 short ids so that the victim's own digest always fits a datagram (the statement's precondition); decompression bombs (memory/time exhaustion) are outside the statement");
             hostile::run(ctx, &mut r);
+            // a message processed while an application thread is dropping a listener handle
+            listen::run_slow_drop(ctx, &mut r);
             r.push(fuzzers::corpus_replay(ctx, &["hostile_process", "wire_decode"], ctx.tier.pick(400, 4000)));
             if ctx.tier == Tier::Thorough {
                 r.push(fuzzers::campaign(ctx, "hostile_process", (1_500_000f64 * ctx.scale) as u64, 65_507));
@@ -185,6 +190,7 @@ pub fn replay_property(ctx: &Ctx, sub: &str, case: &serde_json::Value) -> SubRes
         },
         "C15" => match sub {
             "drop-during-dispatch" => listen::replay_drop_race(ctx, sub, case),
+            "event-during-handle-drop" => listen::replay_slow_drop(ctx, sub, case),
             _ => listen::replay(ctx, sub, case),
         },
         "C17" => match sub {
@@ -196,8 +202,14 @@ pub fn replay_property(ctx: &Ctx, sub: &str, case: &serde_json::Value) -> SubRes
         "C14" => pairs::replay_c14(ctx, sub, case),
         "C18" => catchup::replay(ctx, sub, case),
         "C19" => srv::replay(ctx, sub, case),
-        "C09" => hostile::replay(ctx, sub, case),
-        "C10" => fd::replay(ctx, sub, case, "C10"),
+        "C09" => match sub {
+            "event-during-handle-drop" => listen::replay_slow_drop(ctx, sub, case),
+            _ => hostile::replay(ctx, sub, case),
+        },
+        "C10" => match sub {
+            "server-round-targets" => srv::replay_targets(ctx, sub, case),
+            _ => fd::replay(ctx, sub, case, "C10"),
+        },
         "C11" => fd::replay(ctx, sub, case, "C11"),
         "C04" => match sub {
             "histories" => sim::replay(ctx, sub, case, Monitor::C04),
